@@ -84,6 +84,48 @@ static Bytes seed_file(Rng &r, int fmt, std::string &fmtname)
         put_str(f, "MTrk"); put_be(f, b.size(), 4); put_bytes(f, b);
         return f;
     }
+    case 9:
+    {   // well-formed XMI whose sequence uses the AIL loop controllers: FOR (CC116 n), NEXT (CC117 >= 64), BREAK (CC117 < 64),
+        // balanced or not, nested, with infinite counts; seeks land inside loop bodies
+        fmtname = "xmiloops";
+        Bytes b;
+        b.push_back(0xFF); b.push_back(0x51); b.push_back(0x03); put_be(b, (uint64_t)r.pick((const int[]){500000, 100000, 3, 1000000}), 3);
+        int n = r.range(2, 24), depth = 0;
+        if(r.chance(0.5))
+        {   // loops that the loader accepts: every FOR is closed by exactly one NEXT or BREAK; bodies long enough to seek into
+            int nseg = r.range(2, 5);
+            for(int sgi = 0; sgi < nseg; sgi++)
+            {
+                xmi_delay(b, (uint32_t)r.range(0, 60));
+                bool loop = r.chance(0.7);
+                if(loop) { b.push_back(0xB0); b.push_back(116); b.push_back((uint8_t)r.pick((const int[]){0, 1, 2, 2, 3})); }
+                int m = r.range(1, 4);
+                for(int j = 0; j < m; j++) { xmi_delay(b, (uint32_t)r.range(10, 90)); b.push_back((uint8_t)(0x90 | r.below(3))); b.push_back((uint8_t)r.range(40, 80)); b.push_back(100); put_vlq(b, (uint64_t)r.range(1, 50)); }
+                xmi_delay(b, (uint32_t)r.range(10, 90));
+                if(loop) { b.push_back(0xB0); b.push_back(117); b.push_back((uint8_t)(r.chance(0.5) ? 127 : 0)); }
+            }
+            n = 0;
+        }
+        for(int i = 0; i < n; i++)
+        {
+            xmi_delay(b, r.chance(0.4) ? 0u : (uint32_t)r.range(1, 60));
+            int k = (int)r.below(10), ch = (int)r.below(3);
+            if(k < 4) { b.push_back((uint8_t)(0x90 | ch)); b.push_back((uint8_t)r.range(40, 80)); b.push_back((uint8_t)r.range(1, 127)); put_vlq(b, (uint64_t)r.range(1, 100)); }
+            else if(k < 6) { b.push_back((uint8_t)(0xB0 | ch)); b.push_back(116); b.push_back((uint8_t)r.pick((const int[]){0, 0, 1, 2, 3, 127})); depth++; }
+            else if(k < 8) { b.push_back((uint8_t)(0xB0 | ch)); b.push_back(117); b.push_back((uint8_t)(r.chance(0.7) ? 127 : r.range(64, 127))); depth--; }
+            else if(k == 8) { b.push_back((uint8_t)(0xB0 | ch)); b.push_back(117); b.push_back((uint8_t)r.range(0, 63)); }
+            else { b.push_back((uint8_t)(0xB0 | ch)); b.push_back((uint8_t)r.pick((const int[]){7, 10, 64, 119, 110, 111})); b.push_back((uint8_t)r.below(128)); }
+        }
+        while(depth-- > 0 && r.chance(0.7)) { xmi_delay(b, (uint32_t)r.range(0, 30)); b.push_back(0xB0); b.push_back(117); b.push_back(127); }
+        xmi_delay(b, (uint32_t)r.range(0, 120));
+        b.push_back(0xFF); b.push_back(0x2F); b.push_back(0x00);
+        Bytes info; put_le(info, 1, 2);
+        Bytes xdir; put_str(xdir, "XDIR"); iff_chunk(xdir, "INFO", info);
+        Bytes form; put_str(form, "XMID"); iff_chunk(form, "EVNT", b);
+        Bytes cat; put_str(cat, "XMID"); iff_chunk(cat, "FORM", form);
+        Bytes f; iff_chunk(f, "FORM", xdir); iff_chunk(f, "CAT ", cat);
+        return f;
+    }
     case 7:
     {   // RSXX (EA-MUS): byte 0 = offset >= 0x5D of the data, "rsxx}u" 16 bytes before it
         fmtname = "rsxx";
@@ -322,9 +364,18 @@ static RunOut exercise(Case &c, Rng &r, const Bytes &file, int presel_song, int 
     else if(r.chance(0.3)) API("opn2_setLoopCount", opn2_setLoopCount(d, r.range(-1, 3)));
     if(presel_song != 0) API("opn2_selectSongNum", opn2_selectSongNum(d, presel_song));
 
+    const bool via_file = r.chance(0.25);
     alloc_watch_reset();
     {
         ExactBuf in(file);
+        // every fourth case hands the bytes over as a file: the file reader does not clamp seeks the way the memory reader does
+        if(via_file)
+        {
+            FILE *tf = fopen("c01_input.bin", "wb");
+            if(tf) { if(in.n) fwrite(in.p, 1, in.n, tf); fclose(tf); API("opn2_openFile", out.load_rc = opn2_openFile(d, "c01_input.bin")); count("loads_via_openFile"); }
+            else API("opn2_openData", out.load_rc = opn2_openData(d, in.p, (unsigned long)in.n));
+        }
+        else
         API("opn2_openData", out.load_rc = opn2_openData(d, in.p, (unsigned long)in.n));
     }
     unsigned long long maxreq = g_alloc.max_req; long long peak = g_alloc.peak - 0;
@@ -407,6 +458,13 @@ static RunOut exercise(Case &c, Rng &r, const Bytes &file, int presel_song, int 
             Rng r2(c.rng.next(), 77, (uint64_t)i);
             std::string nm; Bytes f2 = r.chance(0.5) ? seed_file(r2, (int)r2.below(5), nm) : hostile_other(r2, nm);
             ExactBuf in(f2); int rc2 = 0;
+            if(via_file)
+            {
+                FILE *tf = fopen("c01_input2.bin", "wb");
+                if(tf) { if(in.n) fwrite(in.p, 1, in.n, tf); fclose(tf); API("opn2_openFile", rc2 = opn2_openFile(d, "c01_input2.bin")); }
+                else API("opn2_openData", rc2 = opn2_openData(d, in.p, (unsigned long)in.n));
+            }
+            else
             API("opn2_openData", rc2 = opn2_openData(d, in.p, (unsigned long)in.n));
             if(rc2 != 0 && rc2 != -1) c.violation("oracle:load-return-value", vfmt("second opn2_openData returned %d", rc2));
             API("opn2_totalTimeLength", len = opn2_totalTimeLength(d));
@@ -495,10 +553,10 @@ static void run_case(Case &c)
     else
     {
         int cls = (int)r.below(100);
-        if(cls < 45) { std::string nm; file = seed_file(r, (int)r.below(9), nm); int before = (int)file.size(); mutate(r, file); desc = vfmt("mutated-%s(%d->%zu)", nm.c_str(), before, file.size()); }
-        else if(cls < 70) file = hostile_smf(r, desc);
-        else if(cls < 92) file = hostile_other(r, desc);
-        else { std::string nm; file = seed_file(r, r.chance(0.4) ? 8 : (int)r.below(8), nm); desc = "wellformed-" + nm; }
+        if(cls < 38) { std::string nm; file = seed_file(r, (int)r.below(10), nm); int before = (int)file.size(); mutate(r, file); desc = vfmt("mutated-%s(%d->%zu)", nm.c_str(), before, file.size()); }
+        else if(cls < 63) file = hostile_smf(r, desc);
+        else if(cls < 85) file = hostile_other(r, desc);
+        else { std::string nm; file = seed_file(r, r.chance(0.5) ? (r.chance(0.5) ? 8 : 9) : (int)r.below(8), nm); desc = "wellformed-" + nm; }
         presel = r.chance(0.3) ? r.range(-2, 5) : 0;
         nfollow = r.range(0, 40);
         if(file.size() > 6000) nfollow = std::min(nfollow, 8);   // event storms: every seek replays thousands of events
